@@ -3,6 +3,7 @@
 package props
 
 import (
+	"bytes"
 	"fmt"
 	"io"
 	"reflect"
@@ -12,6 +13,7 @@ import (
 
 	"verif/drv"
 	"verif/gen"
+	"verif/link"
 	"verif/ref"
 	"verif/sim"
 )
@@ -115,6 +117,14 @@ func CanSet(scope int, id byte) bool {
 }
 
 func init() {
+	// injected transport errors may wrap errors of the library's own types
+	link.ExtraInner = append(link.ExtraInner,
+		func() error { return &mq.Malformed{} },
+		func() error { return mq.ErrMissingData },
+		func() error {
+			_, err := mq.ReadPacket(bytes.NewReader([]byte{0x20, 0x03, 0x00, 0x00, 0x80}))
+			return err // a genuine decode error of the library
+		})
 	// fill the cache eagerly so that workers never write it concurrently
 	for s := 0; s <= 16; s++ {
 		for id := 0; id < 256; id++ {
